@@ -469,6 +469,12 @@ def run_chunk(cfg, exe, chunk):
         st['op:' + opk] = st.get('op:' + opk, 0) + 1
         if h in ('invalid', 'bad-op'):
             st['invalid'] = st.get('invalid', 0) + 1
+        if h == 'bad-op' or m == 'bad-op':
+            # a generated line that the harness or the driver does not parse: a defect of the generators (the line tests nothing)
+            st['bad_op'] = st.get('bad_op', 0) + 1
+            smp = res.setdefault('bad_op_samples', [])
+            if len(smp) < 3:
+                smp.append(dict(config=cfg.key(), line=l, impl=h, model=m))
         f = fields(h)
         if f:
             if f[5] != '-':
@@ -524,6 +530,7 @@ def merge(total, part):
         total['stats'][k] = total['stats'].get(k, 0) + v
     total['distinct'] += len(part['distinct'])
     total['samples'] = (total['samples'] + part['samples'])[:6]
+    total['bad_op_samples'] = (total.get('bad_op_samples', []) + part.get('bad_op_samples', []))[:5]
 
 
 def core_configs(tier):
